@@ -22,7 +22,8 @@ CTX = Ctx()
 
 class Op:
     def __init__(self, name, args, ret, expr, oracle, cls='ui', props=(), pre=None, lane_pre=None, cmp='bits',
-                 consts=None, scalar=None, widths=None, tier='quick', note='', rm='sym', alt=None, only_types=None, dst=None, slices=None):
+                 consts=None, scalar=None, widths=None, tier='quick', note='', rm='sym', alt=None, only_types=None, dst=None, slices=None, slices_cover=False):
+        self.slices_cover = slices_cover    # the slices partition the whole domain: all of them unsat == the obligation is discharged (case split)
         self.slices = slices      # bounded sub-domains tried when the full-domain query is undecided: fn(T, lane, *args) -> [(name, constraint)]
         self.only_types = only_types
         self.dst = dst
@@ -204,6 +205,22 @@ def sm_div(T, a, b):
     q, r = sym.udiv(ua, ub, w), sym.urem(ua, ub, w)
     neg_q = sym.b_ite(na, b_not(nb_), nb_)
     return sym.ite(neg_q, sym.neg(q, w), q, w), sym.ite(na, sym.neg(r, w), r, w)
+
+
+def o_rem_ms(T, a, b):
+    """remainder written as x - (x / y) * y (the same function as bvurem/bvsrem for every y, zero included); matches implementations
+    that derive the remainder from the quotient by multiply-subtract"""
+    w = T.bits
+    if not T.signed:
+        return sym.sub(a, sym.mul(sym.udiv(a, b, w), b, w), w)
+    na, nb_ = sym.slt(a, 0, w), sym.slt(b, 0, w)
+    ua = sym.ite(na, sym.neg(a, w), a, w)
+    ub = sym.ite(nb_, sym.neg(b, w), b, w)
+    r = sym.sub(ua, sym.mul(sym.udiv(ua, ub, w), ub, w), w)
+    return sym.ite(na, sym.neg(r, w), r, w)
+
+
+def always(T): return True
 
 
 def o_quot_sm(T, a, b): return sm_div(T, a, b)[0]
@@ -513,6 +530,31 @@ def o_ldexp(T, a, e):
     return fp.done(out, a, e)
 
 
+def ldexp_slices(T, i, a, e):
+    """exhaustive case split of ldexp's domain on the class of x, the size of e and the class of the exact result"""
+    w = T.bits
+    sb, eb = fp.SB[w], fp.EB[w]
+    x = sym.bv(a[i], w)
+    ee = sym.bv(e[i], w)
+    ex = z3.ZeroExt(w - eb, z3.Extract(w - 2, sb - 1, x))
+    emax = M(eb)
+    lim = 2 * emax + sb + 8
+    L = z3.BitVecVal(lim, w)
+    nL = z3.BitVecVal((-lim) & M(w), w)
+    normal = z3.And(ex != 0, ex != emax)
+    mid = z3.And(ee >= nL, ee <= L)
+    re = ex + ee
+    return [('x zero or subnormal, e <= 0', z3.And(ex == 0, ee <= 0)),
+            ('x zero or subnormal, e > 0', z3.And(ex == 0, ee > 0)),
+            ('x inf or NaN', ex == emax),
+            ('x normal, e > %d' % lim, z3.And(normal, ee > L)),
+            ('x normal, e < -%d' % lim, z3.And(normal, ee < nL)),
+            ('x normal, |e| <= %d, exact result normal, e >= 0' % lim, z3.And(normal, mid, ee >= 0, re <= emax - 1)),
+            ('x normal, |e| <= %d, exact result normal, e < 0' % lim, z3.And(normal, mid, ee < 0, re >= 1)),
+            ('x normal, |e| <= %d, exact result below the normal range' % lim, z3.And(normal, mid, re <= 0)),
+            ('x normal, |e| <= %d, exact result overflows' % lim, z3.And(normal, mid, re >= emax))]
+
+
 def o_ilogb(T, a):
     w = T.bits
     sign, ex, mant, sb, eb = fields(T, a)
@@ -687,11 +729,11 @@ op('rotr_v', 'vv', 'v', 'avel::rotr({0}, {1})', lw(o_rotr_v), I, ['C04'])
 
 # ---- C05
 op('div_quot', 'vv', 'v', 'avel::div({0}, {1}).quot', lw(o_quot), I, ['C05'], lane_pre=div_lp, slices=div_slices, alt=[(use_ref, lw(o_quot_ref)), (is_signed, lw(o_quot_sm))])
-op('div_rem', 'vv', 'v', 'avel::div({0}, {1}).rem', lw(o_rem), I, ['C05'], lane_pre=div_lp, slices=div_slices, alt=[(use_ref, lw(o_rem_ref)), (is_signed, lw(o_rem_sm))])
+op('div_rem', 'vv', 'v', 'avel::div({0}, {1}).rem', lw(o_rem), I, ['C05'], lane_pre=div_lp, slices=div_slices, alt=[(use_ref, lw(o_rem_ref)), (is_signed, lw(o_rem_sm)), (always, lw(o_rem_ms))])
 op('quot', 'vv', 'v', '{0} / {1}', lw(o_quot), I, ['C05'], lane_pre=div_lp, slices=div_slices, alt=[(use_ref, lw(o_quot_ref)), (is_signed, lw(o_quot_sm))], tier='thorough')
-op('rem', 'vv', 'v', '{0} % {1}', lw(o_rem), I, ['C05'], lane_pre=div_lp, slices=div_slices, alt=[(use_ref, lw(o_rem_ref)), (is_signed, lw(o_rem_sm))], tier='thorough')
+op('rem', 'vv', 'v', '{0} % {1}', lw(o_rem), I, ['C05'], lane_pre=div_lp, slices=div_slices, alt=[(use_ref, lw(o_rem_ref)), (is_signed, lw(o_rem_sm)), (always, lw(o_rem_ms))], tier='thorough')
 op('quot_assign', 'vv', 'v', 'vf::div_assign({0}, {1})', lw(o_quot), I, ['C05'], lane_pre=div_lp, slices=div_slices, alt=[(use_ref, lw(o_quot_ref)), (is_signed, lw(o_quot_sm))], tier='thorough')
-op('rem_assign', 'vv', 'v', 'vf::rem_assign({0}, {1})', lw(o_rem), I, ['C05'], lane_pre=div_lp, slices=div_slices, alt=[(use_ref, lw(o_rem_ref)), (is_signed, lw(o_rem_sm))], tier='thorough')
+op('rem_assign', 'vv', 'v', 'vf::rem_assign({0}, {1})', lw(o_rem), I, ['C05'], lane_pre=div_lp, slices=div_slices, alt=[(use_ref, lw(o_rem_ref)), (is_signed, lw(o_rem_sm)), (always, lw(o_rem_ms))], tier='thorough')
 
 # ---- C06
 for nm, f in (('popcount', o_popcount), ('byteswap', o_byteswap), ('countl_zero', o_clz), ('countl_one', o_clo),
@@ -758,8 +800,8 @@ for nm, f in (('ceil', o_ceil), ('floor', o_floor), ('trunc', o_trunc), ('round'
 # ---- C12
 op('frexp_m', 'v', 'v', 'vf::frexp_m({0})', lw(o_frexp_m), F, ['C12', 'C16'], cmp='fp_arith', scalar='vf::frexp_m_s({0})', rm='RNE')
 op('frexp_e', 'v', 'x', 'vf::frexp_e({0})', lw(o_frexp_e), F, ['C12', 'C16'], lane_pre=frexp_e_lane_pre, scalar='vf::frexp_e_s({0})', rm='RNE')
-op('ldexp', 'vx', 'v', 'avel::ldexp({0}, {1})', lw(o_ldexp), F, ['C12', 'C16'], cmp='fp_arith', scalar='avel::ldexp({0}, {1})', rm='RNE')
-op('scalbn', 'vx', 'v', 'avel::scalbn({0}, {1})', lw(o_ldexp), F, ['C12', 'C16'], cmp='fp_arith', scalar='avel::scalbn({0}, {1})', rm='RNE')
+op('ldexp', 'vx', 'v', 'avel::ldexp({0}, {1})', lw(o_ldexp), F, ['C12', 'C16'], cmp='fp_arith', scalar='avel::ldexp({0}, {1})', rm='RNE', slices=ldexp_slices, slices_cover=True)
+op('scalbn', 'vx', 'v', 'avel::scalbn({0}, {1})', lw(o_ldexp), F, ['C12', 'C16'], cmp='fp_arith', scalar='avel::scalbn({0}, {1})', rm='RNE', slices=ldexp_slices, slices_cover=True)
 op('ilogb', 'v', 'x', 'avel::ilogb({0})', lw(o_ilogb), F, ['C12', 'C16'], scalar='avel::ilogb({0})', rm='RNE')
 op('logb', 'v', 'v', 'avel::logb({0})', lw(o_logb), F, ['C12', 'C16'], cmp='fp_num', scalar='avel::logb({0})', rm='RNE')
 op('frac', 'v', 'v', 'avel::frac({0})', lw(o_frac), F, ['C12', 'C16'], cmp='fp_num', scalar='avel::frac({0})', rm='RNE')
